@@ -431,6 +431,9 @@ func c12RunAttack(at c12Attack, seed int64) (fs []verifFinding, outcome string) 
 				// c = H(ix, g1^d * x^c): for x = 1 and 0 independent of c; for x = p-1 guess the parity of c
 				for _, par := range []int64{0, 1} {
 					xc := modExpP(x, big.NewInt(par))
+					if x.Sign() == 0 {
+						xc = big.NewInt(0) // 0^c = 0 for the (non-zero) hash value c
+					}
 					c = c12Hash(v, ix, mulMod(modExpP(g1, dd), xc, p))
 					if x.Cmp(one) == 0 || x.Sign() == 0 || c.Bit(0) == uint(par) {
 						return
@@ -455,7 +458,17 @@ func c12RunAttack(at c12Attack, seed int64) (fs []verifFinding, outcome string) 
 			a := V.AnswerSMP([]byte("the real secret"))
 			if a.Panic != "" {
 				bad("panic:"+verifPanicClass(a.Panic), "%s", a.Panic)
+				return fs, "panic on answer"
 			}
+			victimTLVs(a)
+			// any SMP3 now reaches the verification code with whatever the degenerate elements produced
+			seven := big.NewInt(7)
+			cp3 := seven
+			if x.Sign() == 0 {
+				// with g2 = g3 = 0 both arguments of the SMP3 proof hash are 0 whatever Pa, Qa are
+				cp3 = c12Hash(v, 6, big.NewInt(0), big.NewInt(0))
+			}
+			send(c12MkTLV(tlvTypeSMP3, nil, []*big.Int{seven, seven, cp3, one, one, seven, seven, seven}))
 			return fs, "accepted degenerate SMP1: " + strings.Join(events, ",")
 		}
 		a := V.AnswerSMP([]byte("the real secret"))
